@@ -36,9 +36,9 @@ let c01_judge args =
     let gs = to_list (to_list to_member) groups in
     L [ L [A "dom"; of_bool (Model.dom_C01 l ex)];
         L [A "known"; of_opt (fun s -> A (coqstring s)) (Model.known_C01 l ex)];
-        L [A "good"; of_bool (Model.good_groups_C01 ex gs)];
+        L [A "good"; of_bool (Model.good_groups_C01 l ex gs)];
         L [A "keys"; of_bool (Model.good_keys_C01 ex gs)];
-        L [A "binding"; of_bool (Model.good_binding_C01 gs)] ]
+        L [A "binding"; of_bool (Model.good_binding_C01 l gs)] ]
   | _ -> raise (Bad "c01_judge args")
 
 let () = register "c01_expected" c01_expected; register "c01_judge" c01_judge
